@@ -34,3 +34,11 @@ chk('C17', 'model_checking',
     'floyd_warshall / ConstrainedFDLayout::readLinearD,G return for those and for seeded random graphs up to 100 / 300 nodes. Exact equality on a 1/8 weight lattice.',
     'Weights are multiples of 1/8 (sums exact in doubles). floyd_warshall was repaired (fix: commit) after this check found F1.',
     'TLA+ Bellman-Ford/certificate specification; TLC-enumerated multigraphs replayed; record validation', '4/C17')
+
+chk('C09', 'model_checking',
+    'RemoveOverlaps.tla states what removeoverlaps and the scan-line generators must deliver: no pair overlapping in both axes, sizes unchanged, borders restored, fixed rectangles '
+    '(pairwise disjoint at entry) displaced < 1% of the average size; generated constraint sets acyclic and -- by difference-constraint theory, longest paths in the constraint DAG -- '
+    'forcing a separation of at least the half-sizes sum for every pair that overlaps on the other axis (necessary and sufficient). TLC enumerates every multiset of 2 rectangles on a '
+    '4x4 (quick) / 6x6 (thorough) grid and of 3 on a 3x3 / 4x4 grid for replay (all fixed subsets x thirdPass, some with borders) and judges the recorded results of those and of seeded sets up to 30 rectangles.',
+    'Output observed on a 2^-20 lattice. F14 / F20 (fixed rectangles moved through chains) are known findings recognised from axis-tight contact chains in the output.',
+    'TLA+ declarative specification (difference-constraint theory); TLC-enumerated rectangle sets replayed; record validation', '4/C09')
